@@ -140,3 +140,50 @@ Theorem C09_fd_job_thread_never_sleeps_past_a_deadline : forall m now,
   end.
 Proof. exact NoOversleep22.dll_job22_wakeup_covers_every_deadline. Qed.
 Print Assumptions C09_fd_job_thread_never_sleeps_past_a_deadline.
+
+(* ---- pacing composed end to end: the closed loop of two model nodes with the time of every frame the originator puts on
+   the wire (tlog: the frames appended to the wire record at each step, stamped with the network's clock at that step) *)
+From J1939P Require Net21 Net21Bam Net22 Net22Proofs Net22Bam.
+
+(* T09.17: a J1939-21 broadcast of ANY payload of 9..1785 bytes: the announcement leaves at t0, packet k at exactly
+   t0 + (k+1)·iv — never closer than the configured interval, never later — and the run ends with nothing queued, no session
+   left and the listeners called with exactly p *)
+Theorem C09_bam_closed_loop_paced : forall prio sa dp pf p t0 A0 B0,
+  0 <= prio < 8 -> 0 <= sa < 255 -> 0 <= pf < 240 -> 0 <= dp < 2 -> 8 < len p <= 1785 -> 0 < t0 ->
+  0 < n_bam_iv A0 < tp21_T1 ->
+  n_snd A0 = [] /\ n_rcv A0 = [] /\ n_timers A0 = [] ->
+  n_snd B0 = [] /\ n_rcv B0 = [] /\ n_timers B0 = [] ->
+  let pv := dp * 65536 + pf * 256 in
+  let iv := n_bam_iv A0 in
+  let s0 := Net21.net_send (Net21.net0 A0 B0 t0) dp pf 255 prio sa p in
+  Net21.wab s0 = [tp21_bam sa prio pv (len p) (Z.of_nat (npk (length p)))] /\ Net21.clk s0 = t0 /\
+  exists j, (Net21.qa (Net21.steps j s0) = [] /\ Net21.qb (Net21.steps j s0) = [] /\
+             n_snd (Net21.na (Net21.steps j s0)) = [] /\ n_rcv (Net21.nb (Net21.steps j s0)) = [] /\
+             Net21.evb (Net21.steps j s0) = deliveries B0 7 pv sa addr_GLOBAL p) /\
+    Net21Bam.tlog j s0 = map (fun k => (t0 + Z.of_nat (S k) * iv, tp21_dt sa addr_GLOBAL (dt_payload p (Z.of_nat k))))
+                             (seq 0 (npk (length p))).
+Proof. exact Net21Bam.bam_closed_loop_paced. Qed.
+Print Assumptions C09_bam_closed_loop_paced.
+
+(* T09.16: an FD broadcast of ANY payload of more than 60 bytes: data frame k leaves at exactly t0 + (k+1)·iv, the
+   end-of-message status one interval after the last *)
+Theorem C09_fd_bam_closed_loop_paced : forall prio sa dp pf p t0 A0 B0,
+  0 <= prio < 8 -> 0 <= sa < 255 -> 0 <= pf < 240 -> 0 <= dp < 2 -> 60 < len p < 16777216 -> 0 < t0 ->
+  0 < f_bam_iv A0 < tp22_T1 -> 2 * f_bam_iv A0 < tp22_T1 ->
+  f_snd A0 = [] /\ f_rcv A0 = [] /\ f_mpg A0 = [] /\ n_timers (base A0) = [] /\ f_bam A0 = repeat true tp22_pool_bam ->
+  f_snd B0 = [] /\ f_rcv B0 = [] /\ f_mpg B0 = [] /\ n_timers (base B0) = [] ->
+  let pv := dp * 65536 + pf * 256 in
+  let ns := ((length p + 59) / 60)%nat in
+  let iv := f_bam_iv A0 in
+  let s0 := Net22.net22_send (Net22.net22_0 A0 B0 t0) dp pf 255 prio sa p in
+  Net22.wab2 s0 = [tp22_bam prio sa 0 pv (len p) (Z.of_nat ns)] /\ Net22.fclk s0 = t0 /\
+  exists j, (Net22.pa (Net22.steps22 j s0) = [] /\ Net22.pb (Net22.steps22 j s0) = [] /\
+             f_snd (Net22.fa (Net22.steps22 j s0)) = [] /\ f_rcv (Net22.fb (Net22.steps22 j s0)) = [] /\
+             Net22.evb2 (Net22.steps22 j s0) = deliveries (base B0) 7 pv sa addr_GLOBAL p) /\
+    Net22Bam.tlog22 j s0 =
+      map (fun k => (t0 + Z.of_nat (S k) * iv,
+                     match dt_frame sa addr_GLOBAL 0 (Z.of_nat k + 1) (Net22Proofs.row p k) with
+                     | Some (fr, _) => fr | None => tp22_bam prio sa 0 pv (len p) (Z.of_nat ns) end)) (seq 0 ns)
+      ++ [(t0 + Z.of_nat (S ns) * iv, tp22_eom_status sa addr_GLOBAL 0 (len p) (Z.of_nat ns) pv)].
+Proof. exact Net22Bam.bam_closed_loop22_paced. Qed.
+Print Assumptions C09_fd_bam_closed_loop_paced.
